@@ -140,6 +140,19 @@ CLAIMED.update({
         technique='symbolic execution of rustc MIR with z3 (bit-vectors, division lemma) and Kani/CBMC on the compiled code, native replay', design='4/C08'),
 })
 
+CLAIMED.update({
+    'C16': dict(
+        text='Exact numbers only: the real builtins number->string and string->number (hence `impl Display/LowerHex/Octal/Binary for Number`, Number::parse_with_exactness, '
+             'parse, parse_rational) executed from MIR on a fabricated VM for a symbolic exact z per representation (any i64 fixnum, bignums up to 2^66, any i32 numerator '
+             'over a denominator palette) at radix 2, 8, 10, 16; the printed text is a list of solver terms of symbolic length (one path per digit count). Claim per path: '
+             'the value read back is a number, exact, and equal to z; and the same text behind the matching #b/#o/#d/#x prefix, pushed through the real lex::scan and '
+             'parse::parse_text, denotes z (literal clause).',
+        note='Inexact numbers are outside (the shortest-round-trip printer of doubles cannot be encoded; seeded change C16A, which breaks float printing, is missed for that '
+             'reason). The integer printers/parsers of std, num-bigint and num-rational are dependencies, modelled by the defining property of positional notation '
+             '(models_fmtnum.py); a chain of divisions by ten is not decided by the back end (measured), so the round trip through identical digit terms is syntactic.',
+        technique='symbolic execution of rustc MIR with z3 on fabricated VM states (symbolic-length digit strings), native replay', design='4/C16'),
+})
+
 NOT_APPLICABLE = {
     'C01': 'whole-pipeline property over arbitrary programs (reader -> syntax-rules prelude -> compiler -> VM): no engine here can push a symbolic program through it; enumerating program shapes would be testing, not solver work (DESIGN.md section 5)',
     'C02': 'scoping is a relation between compile-time environment maps and run-time environment chains across nested activations of whole programs; the only solver-sized kernel restates the code (DESIGN.md section 5)',
